@@ -759,10 +759,14 @@ class Variant(productmd.composeinfo.VariantBase):
                 self.add(variant)
 
     def deserialize_1_0(self, parser, uid, addon=False):
-        self.id = parser.get(self._section, "id")
-        self.uid = parser.get(self._section, "uid")
-        self.name = parser.get(self._section, "name")
-        self.type = parser.get(self._section, "type")
+        # the section name depends on the variant type, which is not known yet
+        section = "variant-%s" % uid
+        if not parser.has_section(section):
+            section = "addon-%s" % uid
+        self.id = parser.get(section, "id")
+        self.uid = parser.get(section, "uid")
+        self.name = parser.get(section, "name")
+        self.type = parser.get(section, "type")
 
         # child addons
         if parser.has_option(self._section, "addons"):
